@@ -7,27 +7,8 @@ from .result import Result
 
 CFG = {"quick": ["MC_Enum_q1.cfg"], "thorough": ["MC_Enum_t1.cfg"]}
 
-ANCHOR = {"i128min": -2**127 + 8, "i64min": -2**63, "i32min": -2**31, "i16min": -2**15, "i8min": -128, "0": 0,
-          "i8max": 127, "u8max": 255, "i16max": 2**15 - 1, "u16max": 2**16 - 1, "i32max": 2**31 - 1,
-          "u32max": 2**32 - 1, "i64max": 2**63 - 1, "u64max": 2**64 - 1, "i128max": 2**127 - 9, "u128max": 2**127 - 9}
+from .conform import ANCHOR, num, denum
 SIZES = {"u8": 1, "i8": 1, "u16": 2, "i16": 2, "u32": 4, "i32": 4, "u64": 8, "i64": 8, "u128": 16, "i128": 16}
-
-
-def num(v):
-    if isinstance(v, dict) and "a" in v:
-        return ANCHOR[v["a"]] + v["d"]
-    return v
-
-
-def denum(x):
-    """replace symbolic integers by plain ones everywhere in a JSON value"""
-    if isinstance(x, dict):
-        if set(x.keys()) == {"a", "d"}:
-            return NONE if x["a"] == "none" else num(x)
-        return {k: denum(v) for k, v in x.items()}
-    if isinstance(x, list):
-        return [denum(v) for v in x]
-    return x
 
 
 def wrap(v, base):
